@@ -6,6 +6,7 @@ cd /verif
 if git -C /repo status --short | grep -v '^??' | grep -q .; then echo "REFUSING: /repo dirty"; exit 2; fi
 only=${1:-}
 for d in seeded/*/; do
+  [ -f "$d/patch.diff" ] || continue
   id=$(basename $d); pid=${id%%-*}
   if [ "$only" = "new" ]; then grep -q official_run "$d/meta.json" && continue
   elif [ -n "$only" ] && [ "$only" != "$id" ]; then continue; fi
